@@ -90,6 +90,7 @@ CHECKS = {
     "C04": {
         "runs": [
             R(LAB, "^TestC04", {"checks": 1500, "timeout": 600}, {"checks": 40000, "shards": 16, "timeout": 2400}),
+            R("./middleware", "^TestC04TimeFrame", {"checks": 20000, "timeout": 300}, {"checks": 400000, "shards": 8, "timeout": 1200}),
         ],
     },
     "C02": {
@@ -107,6 +108,7 @@ CHECKS = {
             R("./proxyproto", "^TestC08Func", {"checks": 30000, "timeout": 300}, {"checks": 300000, "shards": 6, "timeout": 1500}),
             R("./proxyproto", "^TestC08Conn", {"checks": 4000, "timeout": 300}, {"checks": 40000, "shards": 8, "timeout": 1500}),
             R("./proxyproto", "^TestC08Exhaustive", {"checks": 1}, {"checks": 1, "timeout": 1500}, tiers=("thorough",)),
+            R(LAB, "^TestC08Stall", {"checks": 10, "timeout": 300}, {"checks": 120, "shards": 4, "timeout": 1500}),
         ],
         "fuzz": [{"pkg": "./proxyproto", "target": "FuzzC08", "time": "90s", "key": "C08:fuzz"}],
     },
